@@ -1,11 +1,13 @@
 #!/bin/sh
-# dev helper: run every check of a tier and summarise
+# dev helper: run every check of a tier and summarise (uses the check script next to this directory)
 tier=${1:-quick}
-mkdir -p /tmp/runall
-for p in C01 C02 C03 C04 C05 C06 C07 C08 C09 C10 C11 C12 C13 C14 C15 C16 C17 C18; do
+here=$(cd "$(dirname "$0")/.." && pwd)
+out=${RUNALL_OUT:-/tmp/runall}
+mkdir -p $out
+for p in ${RUNALL_PROPS:-C01 C02 C03 C04 C05 C06 C07 C08 C09 C10 C11 C12 C13 C14 C15 C16 C17 C18}; do
   s=$(date +%s)
-  /verif/check $p $tier > /tmp/runall/$p.$tier.out 2> /tmp/runall/$p.$tier.err
+  $here/check $p $tier > $out/$p.$tier.out 2> $out/$p.$tier.err
   rc=$?
   e=$(date +%s)
-  echo "$p exit=$rc wall=$((e-s))s viol=$(grep -c '^VIOLATION' /tmp/runall/$p.$tier.out) known=$(grep -c '^KNOWN' /tmp/runall/$p.$tier.out) inconcl=$(grep -c '^INCONCLUSIVE' /tmp/runall/$p.$tier.out)"
+  echo "$p exit=$rc wall=$((e-s))s viol=$(grep -c '^VIOLATION' $out/$p.$tier.out) known=$(grep -c '^KNOWN' $out/$p.$tier.out) inconcl=$(grep -c '^INCONCLUSIVE' $out/$p.$tier.out) $(grep '^INCONCLUSIVE\|^VIOLATION' $out/$p.$tier.out | head -2 | cut -c1-300)"
 done
